@@ -4,6 +4,7 @@ package store
 
 import (
 	"context"
+	"encoding/json"
 	"fmt"
 	"os"
 	"path/filepath"
@@ -123,4 +124,32 @@ func VerifRepoNames(s Store) []string {
 	}
 	sort.Strings(out)
 	return out
+}
+
+func VerifIndexJSON(s Store, repoStr string) ([]byte, error) {
+	r, err := s.RepoGet(context.Background(), repoStr)
+	if err != nil {
+		return nil, err
+	}
+	defer r.Done()
+	i, err := r.IndexGet()
+	if err != nil {
+		return nil, err
+	}
+	return json.Marshal(i)
+}
+
+func VerifBlobList(s Store, repoStr string) ([]string, error) {
+	r, err := s.RepoGet(context.Background(), repoStr)
+	if err != nil {
+		return nil, err
+	}
+	defer r.Done()
+	dl, err := r.blobList(false)
+	out := make([]string, 0, len(dl))
+	for _, d := range dl {
+		out = append(out, d.String())
+	}
+	sort.Strings(out)
+	return out, err
 }
